@@ -1,4 +1,4 @@
-import Gv.Proofs.PhylipRT3
+import Gv.Proofs.PhylipRT4
 import Gv.Proofs.ClustalRT4
 /-!
 C02, Phylip and Clustal: what the representability predicates of `Spec/Fmt.lean` give row by row, in the
@@ -51,6 +51,25 @@ theorem ph_repr_rows (strict : Bool) (rows : List XRow) (h : reprPhylip strict r
       cases hres with
       | inl h1 => left; simpa using h1 r hr b hb
       | inr h1 => right; simpa using h1 r hr b hb
+
+/-- a representable alignment whose counts fit is one that a `Parse` call of a stream reads back -/
+theorem ph_good (af strict : Bool) (rows : List XRow) (h : reprPhylip strict rows = true)
+    (hsize : rows.length ≤ 9223372036854775807 ∧ ∀ r ∈ rows, r.2.length ≤ 9223372036854775807)
+    (halloc : af = false ∨ rows.length < 134217728) : Good af strict rows := by
+  obtain ⟨hne, L, hL1, hok, hdist⟩ := ph_repr_rows strict rows h
+  refine ⟨hne, hsize.1, halloc, hdist, L, hL1, ?_, hok⟩
+  cases rows with
+  | nil => exact absurd rfl hne
+  | cons r rs => rw [← (hok r (by simp)).len]; exact hsize.2 r (by simp)
+
+theorem stream_length (strict oneline noblock : Bool) : ∀ (as : List (List XRow)),
+    as.length ≤ (as.flatMap (Phylip.write strict oneline noblock)).length
+  | [] => by simp
+  | a :: rest => by
+    obtain ⟨d, R, h, _, _⟩ := write_head strict oneline noblock a
+    have ih := stream_length strict oneline noblock rest
+    simp only [List.flatMap_cons, List.length_append, List.length_cons, h]
+    omega
 
 end Phylip
 
